@@ -22,9 +22,10 @@ CONSTANTS Kinds,      \* subset of {"slurm", "sge"}
           Modes,      \* subset of {"intended", "asbuilt"}
           MaxPolls,   \* longest response sequence (poll rounds)
           ExhLen,     \* scripts up to this length are all enumerated ...
-          SampleMod,  \* ... longer ones iff (Hash + Seed) % SampleMod = 0
+          SampleMod,  \* ... longer ones iff (Hash + Seed) % ModFor(length) = 0
           Seed,
-          OptPlan     \* "all" | "few" | "nr" | "one" : which user option strings
+          OptPlan     \* "all" | "few" | "nr" | "one" : which user option strings;
+                      \* "mix" = the few with the selected scripts, all others with one-response scripts
 
 VARIABLES kind, mode, opts, sub, script,   \* the case (fixed in Init)
           pc, i, ev, verdict, why, argv    \* the worker
@@ -45,16 +46,20 @@ Responses(k)  == Forcing \cup NonForcing(k)
 
 RespOrder == <<"pending", "running", "acctrunning", "cancelled", "timeout", "preempted",
                "evicted", "acctmissing", "completed", "noresult", "failed1", "failed137">>
-Idx(r) == CHOOSE n \in 1..Len(RespOrder) : RespOrder[n] = r
+RespIdx == [r \in {RespOrder[n] : n \in 1..Len(RespOrder)} |-> CHOOSE n \in 1..Len(RespOrder) : RespOrder[n] = r]
 RECURSIVE HashSeq(_)
-HashSeq(s) == IF s = <<>> THEN 7 ELSE (HashSeq(Tail(s)) * 31 + Idx(Head(s))) % 10007
+HashSeq(s) == IF s = <<>> THEN 7 ELSE (HashSeq(Tail(s)) * 257 + RespIdx[Head(s)]) % 10007
 
 (* every sequence of non-forcing responses closed by one forcing response *)
 Scripts(k) == UNION { { s \o <<f>> : s \in [1..n -> NonForcing(k)], f \in Forcing }
                       : n \in 0..(MaxPolls - 1) }
-Selected(s) == Len(s) <= ExhLen \/ (HashSeq(s) + Seed) % SampleMod = 0
+(* SampleMod is the sampling modulus for the longest scripts; one poll round less means    *)
+(* about seven times fewer scripts, so the modulus shrinks likewise (even spread of lengths) *)
+ModFor(n) == LET m == SampleMod \div (7 ^ (MaxPolls - n)) IN IF m < 1 THEN 1 ELSE m
+Selected(s) == Len(s) <= ExhLen \/ (HashSeq(s) + Seed) % ModFor(Len(s)) = 0
 (* constant-level, so TLC evaluates it once per kind *)
 SelScripts == [k \in Kinds |-> { s \in Scripts(k) : Selected(s) }]
+OneScripts == { <<f>> : f \in Forcing }
 
 (* ------------------------------ user options --------------------------------- *)
 Keys     == <<"J", "o", "e">>          \* job-name, output, error
@@ -74,7 +79,7 @@ FewOpts(k) ==
   ELSE { NoOpts,
          [NoOpts EXCEPT !.J = "short", !.o = "short"],
          [NoOpts EXCEPT !.e = "short"] }
-OptSet(k) == CASE OptPlan = "all" -> AllOpts(k)
+OptSet(k) == CASE OptPlan \in {"all", "mix"} -> AllOpts(k)
                [] OptPlan = "few" -> FewOpts(k)
                [] OptPlan = "nr"  -> { o \in AllOpts(k) : o.J = "none" /\ o.o = "none" /\ o.e = "none" }
                [] OTHER           -> {NoOpts}
@@ -103,7 +108,9 @@ Init == /\ kind \in Kinds
         /\ mode \in Modes
         /\ opts \in OptSet(kind)
         /\ sub \in {"accepted", "submiterror"}
-        /\ script \in IF sub = "accepted" THEN SelScripts[kind] ELSE { <<>> }
+        /\ script \in IF sub # "accepted" THEN { <<>> }
+                         ELSE IF OptPlan = "mix" /\ opts \notin FewOpts(kind) THEN OneScripts
+                         ELSE SelScripts[kind]
         /\ pc = "start" /\ i = 0 /\ ev = <<>> /\ verdict = "none" /\ why = "" /\ argv = <<>>
 
 Event(e, r) == [e |-> e, r |-> r]
